@@ -10,6 +10,7 @@ CONSTANTS
   PruneToks = @PRUNE@
   EmitEvery = @EMITEVERY@
   LowerNames <- LowerNamesMC
+  LongNamesLower = FALSE
 INIT Init
 NEXT Next
 INVARIANTS EmitLex EmitTok
